@@ -724,5 +724,80 @@ func genRoutes() {
 	fmt.Fprintf(&e.sb, "Definition mounts : list (string * string) := [%s].\n\n", strings.Join(ms, "; "))
 	fmt.Fprintf(&e.sb, "(* the user argument that the check passes to isAdminOrExplicitPassword *)\nDefinition check_defs : list (string * string) := [(\"checkAdmin\", %s); (\"checkAdminOrExplicitPassword\", %s)].\n",
 		rtCoqString(rtCheckDef(api, "checkAdmin")), rtCoqString(rtCheckDef(api, "checkAdminOrExplicitPassword")))
+	rtUpdateFunctions(&e)
 	e.write("Routes.v")
+}
+
+// rtUpdateFunctions: every function of group/description.go that rewrites or
+// removes a group file (calls rewriteDescriptionFile or os.Remove), with
+// whether its whole read-modify-write is inside the description lock: the
+// statements `groups.mu.Lock()` and `defer groups.mu.Unlock()` come, in this
+// order and next to each other, before the first statement that reads a
+// description (readDescription, getDescriptionFile, GetDescription, os.Stat,
+// os.Open) or writes one, and the lock is not released anywhere else.
+func rtUpdateFunctions(e *emitter) {
+	f := parse("group/description.go")
+	touches := func(n ast.Node, names ...string) bool {
+		found := false
+		ast.Inspect(n, func(x ast.Node) bool {
+			if c, ok := x.(*ast.CallExpr); ok {
+				fn := rtSrc(f.fset, c.Fun)
+				for _, nm := range names {
+					if fn == nm {
+						found = true
+					}
+				}
+			}
+			if se, ok := x.(*ast.SelectorExpr); ok {
+				// a function value passed along, e.g. getDescriptionFile(name, false, os.Stat)
+				for _, nm := range names {
+					if rtSrc(f.fset, se) == nm {
+						found = true
+					}
+				}
+			}
+			return true
+		})
+		return found
+	}
+	type uf struct {
+		name   string
+		locked bool
+	}
+	var out []uf
+	for _, d := range f.f.Decls {
+		fd, ok := d.(*ast.FuncDecl)
+		if !ok || fd.Body == nil || fd.Recv != nil || fd.Name.Name == "rewriteDescriptionFile" {
+			continue
+		}
+		if !touches(fd.Body, "rewriteDescriptionFile", "os.Remove") {
+			continue
+		}
+		lockAt, firstIO, unlocks := -1, -1, 0
+		for i, st := range fd.Body.List {
+			src := rtSrc(f.fset, st)
+			if src == "groups.mu.Lock()" && lockAt < 0 {
+				lockAt = i
+				continue
+			}
+			if firstIO < 0 && touches(st, "readDescription", "getDescriptionFile", "GetDescription", "rewriteDescriptionFile",
+				"os.Stat", "os.Open", "os.Remove", "os.ReadFile") {
+				firstIO = i
+			}
+		}
+		ast.Inspect(fd.Body, func(x ast.Node) bool {
+			if c, ok := x.(*ast.CallExpr); ok && rtSrc(f.fset, c.Fun) == "groups.mu.Unlock" {
+				unlocks++
+			}
+			return true
+		})
+		locked := lockAt >= 0 && firstIO > lockAt && lockAt+1 < len(fd.Body.List) &&
+			rtSrc(f.fset, fd.Body.List[lockAt+1]) == "defer groups.mu.Unlock()" && unlocks == 1
+		out = append(out, uf{fd.Name.Name, locked})
+	}
+	parts := make([]string, len(out))
+	for i, u := range out {
+		parts[i] = fmt.Sprintf("(%s, %v)", rtCoqString(u.name), u.locked)
+	}
+	fmt.Fprintf(&e.sb, "\n(* the functions of group/description.go that rewrite or remove a group file, and\n   whether their whole read-modify-write is under groups.mu *)\nDefinition update_functions : list (string * bool) := [%s].\n", strings.Join(parts, "; "))
 }
